@@ -38,6 +38,7 @@ def load_variants(prop=None):
 def _apply(root, v):
     """-> None if applied, else reason."""
     edits = v.get("edits") or [(v["file"], v["old"], v["new"])]
+    touched = []
     for ed in edits:
         file, old, new = ed[:3]
         every = len(ed) > 3 and ed[3] == "all"
@@ -48,11 +49,14 @@ def _apply(root, v):
         if old not in s:
             return f"anchor text not found in {file}"
         s2 = s.replace(old, new) if every else s.replace(old, new, 1)
+        open(p, "w", encoding="utf-8").write(s2)
+        touched.append(p)
+    # the variant as a whole has to compile (a single edit of a multi-edit variant need not)
+    for p in touched:
         try:
-            ast.parse(s2)
+            ast.parse(open(p, encoding="utf-8").read())
         except SyntaxError as e:
             return f"variant does not compile: {e}"
-        open(p, "w", encoding="utf-8").write(s2)
     return None
 
 
